@@ -284,7 +284,8 @@ def run(ctx):
                         span, lim = gen.bz2_max_block_span(open(rc.argv[-1], "rb").read())
                     except OSError:
                         span, lim = 0, 0
-                    if lim and span >= lim:
+                    # (the window must hold the block and the 10-byte magic + CRC that follows it: observed limit 99990 ok, 99998 fails)
+                    if lim and span + 10 > lim:
                         sig = "C05|bz2|compressed-block-not-smaller-than-the-block-size|decoder-error"
                 if codec == "lz4" and lc == "misaligned":
                     sig += "|block-split-not-multiple-of-blocksz"
